@@ -725,6 +725,38 @@ def _loops_to_comprehensions(stmts: list[ast.stmt]) -> list[ast.stmt]:
                     out[idx] = ast.copy_location(ast.Assign(targets=[ast.Name(id=name, ctx=ast.Store())], value=comp), out[idx])
                     ast.fix_missing_locations(out[idx])
                     continue
+        if isinstance(st, ast.For) and not st.orelse and st.body:
+            body = list(st.body)
+            flt = None
+            if len(body) == 2 and isinstance(body[0], ast.If) and not body[0].orelse and len(body[0].body) == 1 and isinstance(body[0].body[0], ast.Continue):
+                flt = ast.UnaryOp(op=ast.Not(), operand=body[0].test)
+                body = body[1:]
+            elif len(body) == 1 and isinstance(body[0], ast.If) and not body[0].orelse and len(body[0].body) == 1 and isinstance(body[0].body[0], ast.AugAssign):
+                flt = body[0].test
+                body = body[0].body
+            temps_ = {}
+            if len(body) > 1 and all(isinstance(b, ast.Assign) and len(b.targets) == 1 and isinstance(b.targets[0], ast.Name) for b in body[:-1]):
+                temps_ = {b.targets[0].id: b.value for b in body[:-1]}
+                body = body[-1:]
+            if len(body) == 1 and isinstance(body[0], ast.AugAssign) and isinstance(body[0].op, ast.Add) and isinstance(body[0].target, ast.Name) \
+                    and body[0].target.id not in temps_:
+                name = body[0].target.id
+                mentions = sum(1 for b in st.body for n in ast.walk(b) if isinstance(n, ast.Name) and n.id == name)
+                if mentions == 1 and not any(isinstance(n, ast.Name) and n.id == name for n in ast.walk(st.iter)):
+                    elt = clone(body[0].value)
+                    for _ in range(len(temps_) + 1):
+                        class S2(ast.NodeTransformer):
+                            def visit_Name(self, node):  # noqa: N802
+                                if isinstance(node.ctx, ast.Load) and node.id in temps_:
+                                    return clone(temps_[node.id])
+                                return node
+                        elt = S2().visit(elt)
+                    comp = ast.ListComp(elt=elt, generators=[ast.comprehension(
+                        target=clone(st.target), iter=clone(st.iter), ifs=[flt] if flt is not None else [], is_async=0)])
+                    new = ast.AugAssign(target=ast.Name(id=name, ctx=ast.Store()), op=ast.Add(),
+                                        value=ast.Call(func=ast.Name(id="sum", ctx=ast.Load()), args=[comp], keywords=[]))
+                    out.append(ast.fix_missing_locations(ast.copy_location(new, st)))
+                    continue
         out.append(st)
     return out
 
@@ -734,7 +766,28 @@ def _normalise_loops(stmts: list[ast.stmt]) -> list[ast.stmt]:
         for n in ast.walk(st):
             if isinstance(n, (ast.For, ast.While)):
                 n.body = _strip_tail_continue(n.body) or [ast.Pass()]
-    return stmts
+    return _straightline_updates(stmts, in_loop=False)
+
+
+def _straightline_updates(stmts: list[ast.stmt], in_loop: bool) -> list[ast.stmt]:
+    """Outside loops `x += e` on a local name is `x = x + e` (a chain of plain definitions that is substituted away)."""
+    out = []
+    for st in stmts:
+        inner_loop = in_loop or isinstance(st, (ast.For, ast.While))
+        for field in ("body", "orelse", "finalbody"):
+            sub = getattr(st, field, None)
+            if isinstance(sub, list) and sub and isinstance(sub[0], ast.stmt) and not isinstance(st, (ast.FunctionDef, ast.ClassDef)):
+                setattr(st, field, _straightline_updates(sub, inner_loop))
+        if isinstance(st, ast.Try):
+            for h in st.handlers:
+                h.body = _straightline_updates(h.body, in_loop)
+        if not in_loop and isinstance(st, ast.AugAssign) and isinstance(st.target, ast.Name) and isinstance(st.op, (ast.Add, ast.Sub, ast.Mult)):
+            new = ast.Assign(targets=[ast.Name(id=st.target.id, ctx=ast.Store())],
+                             value=ast.BinOp(left=ast.Name(id=st.target.id, ctx=ast.Load()), op=st.op, right=st.value))
+            out.append(ast.fix_missing_locations(ast.copy_location(new, st)))
+        else:
+            out.append(st)
+    return out
 
 
 class Signature:
@@ -841,6 +894,7 @@ class Signature:
         self.fn = fn
         fi = _fi(fn)
         self.flow = Flow(fi)
+        self.flow.absolute_versions = True
         self.loopvars = set(mapping.values())
         self.facts: set[tuple] = set()
         self.trace: list[tuple] = []   # the same effects in program order
@@ -863,6 +917,27 @@ class Signature:
             ex = self.flow.expand(t, self.flow.node_for(at), stop=set(self.loopvars) | self.objects)
             return penv.atom_name(ex)
         return norm(t)
+
+    def _as_update(self, target: str, value: ast.AST, at: ast.AST) -> str | None:
+        """`t = t + e` (or `t = e + t`, `t = t - e`) is the update `t += e`: -> canonical e, else None."""
+        stop = set(self.loopvars) | self.objects
+        ex = self.flow.expand(value, self.flow.node_for(at), stop=stop)
+        if isinstance(ex, ast.Tuple):
+            return None
+        try:
+            p = PolyEnv().poly(ex)
+        except Exception:
+            return None
+        import re as _re
+        base = _re.sub(r"@[\d_]+", "", target)
+        hits = [m for m, c in p.t.items() if c == 1 and len(m) == 1 and m[0][1] == 1 and _re.sub(r"@[\d_]+", "", m[0][0]) == base]
+        if len(hits) != 1 or len(p.t) < 2:
+            return None
+        rest = Poly({k: v for k, v in p.t.items() if k != hits[0]})
+        # the rest must not mention the target again (x = x + x*y is not a plain increment)
+        if any(_re.sub(r"@[\d_]+", "", sym) == base for m in rest.t for sym, _ in m):
+            return None
+        return rest.canon()
 
     def _next(self, target: str) -> int:
         """Position of this update among the updates of the same target (program order): the order of successive
@@ -897,10 +972,22 @@ class Signature:
                     v = vals[i] if vals is not None else st.value
                     tag = f"[{i}]" if vals is None and len(tgts) > 1 else ""
                     tt = self._target(t, st)
-                    self._add(("set", tt, "=", self._canon(v, st) + tag, ctx, self._next(tt)))
+                    upd = self._as_update(tt, v, st) if not tag else None
+                    if upd is not None:
+                        self._add(("set", tt, "Add=", upd, ctx, self._next(tt)))
+                    else:
+                        self._add(("set", tt, "=", self._canon(v, st) + tag, ctx, self._next(tt)))
             elif isinstance(st, ast.AugAssign):
                 tt = self._target(st.target, st)
-                self._add(("set", tt, type(st.op).__name__ + "=", self._canon(st.value, st), ctx, self._next(tt)))
+                if isinstance(st.op, ast.Sub):
+                    # x -= e is x += -e
+                    neg = ast.copy_location(ast.UnaryOp(op=ast.USub(), operand=st.value), st.value)
+                    ast.fix_missing_locations(neg)
+                    stop = set(self.loopvars) | self.objects
+                    ex = self.flow.expand(st.value, self.flow.node_for(st), stop=stop)
+                    self._add(("set", tt, "Add=", (-PolyEnv().poly(ex)).canon(), ctx, self._next(tt)))
+                else:
+                    self._add(("set", tt, type(st.op).__name__ + "=", self._canon(st.value, st), ctx, self._next(tt)))
             elif isinstance(st, ast.Return):
                 self._add(("ret", self._canon(st.value, st) if st.value is not None else "None", ctx))
             elif isinstance(st, ast.Expr):
@@ -945,6 +1032,56 @@ def reference(name: str) -> Signature:
     return _ref_cache[name]
 
 
+_DOMAIN_GUARD = __import__("re").compile(
+    r"^if (cmp\[(Lt|LtE)\]\((?P<a>[\w.]+(\.get\([^()]*\))?|int\([^()]*(\([^()]*\))?[^()]*\)), (0|1)\)"          # p < 0, p <= 0, p < 1
+    r"|cmp\[(Lt|LtE)\]\((0|1), -1\*[\w.]+\)"
+    r"|cmp\[Is\]\([\w.]+, None\)"                                                                 # p is None
+    r")$")
+_DOMAIN_GUARD_NEG = __import__("re").compile(
+    r"^ifnot (isinstance\([\w.]+, .*\)|callable\([\w.]+\)|cmp\[In\]\([\w.]+, \{.*\}\)|cmp\[Eq\]\((\d+, )?[\w.]+\.(ndim|dtype)(, [\w.']+)?\)|np\.isfinite\([\w.]+\))$")
+
+
+def _tolerate_domain_guards(act: "Signature", ref: "Signature") -> list[str]:
+    """Extra guards of the analysed function that only reject input outside the domain the properties speak about
+    (negative / zero counts, None, wrong type, wrong ndim/dtype, an option outside its literal set, non-finite numbers)
+    and do nothing but raise: the function agrees with its definition wherever the definition is defined.  The guard's
+    raise and the guard's negation in the conditions of everything that follows are removed before the comparison."""
+    ref_conds = {c for f in ref.facts for c in (f[-2] if f[0] == "set" else f[-1] if f[0] in ("raise",) else f[2] if len(f) > 2 and isinstance(f[2], tuple) else ())
+                 if isinstance(c, str)}
+    extra: set[str] = set()
+    for f in act.facts:
+        if f[0] == "raise" and f[1]:
+            last = f[1][-1]
+            if last in ref_conds:
+                continue
+            if _DOMAIN_GUARD.match(last) or _DOMAIN_GUARD_NEG.match(last):
+                extra.add(last)
+    if not extra:
+        return []
+    drop = set(extra)
+    for c in extra:
+        drop.add(("ifnot " + c[3:]) if c.startswith("if ") else ("if " + c[6:]))
+
+    def strip(ctx: tuple) -> tuple:
+        return tuple(x for x in ctx if x not in drop)
+
+    new_facts = set()
+    for f in act.facts:
+        if f[0] == "raise" and f[1] and f[1][-1] in extra:
+            continue
+        if f[0] == "set":
+            new_facts.add((*f[:4], strip(f[4]), f[5]))
+        elif f[0] in ("ret", "expr", "stmt"):
+            new_facts.add((f[0], f[1], strip(f[2])))
+        elif f[0] == "raise":
+            new_facts.add(("raise", strip(f[1])))
+        else:
+            new_facts.add((f[0], strip(f[1]), *f[2:]))
+    act.facts = new_facts
+    act.skeleton = [strip(t) for t in act.skeleton]
+    return sorted(extra)
+
+
 def compare(fn: FuncInfo, name: str | None = None) -> tuple[str, list[str]]:
     """-> ('same' | 'different' | 'incomparable', explanation lines)."""
     name = name or fn.name
@@ -956,6 +1093,7 @@ def compare(fn: FuncInfo, name: str | None = None) -> tuple[str, list[str]]:
     def shape(sk):
         return sorted(tuple("if" if x.startswith("if") else "W" if x.startswith("while") else "L" for x in t) for t in sk)
 
+    tolerated = _tolerate_domain_guards(act, ref)
     if shape(act.skeleton) != shape(ref.skeleton):
         return "incomparable", [f"loop nest shape {shape(act.skeleton)} differs from the reference {shape(ref.skeleton)}"]
     if sorted(act.skeleton) != sorted(ref.skeleton):
@@ -963,7 +1101,8 @@ def compare(fn: FuncInfo, name: str | None = None) -> tuple[str, list[str]]:
         r = sorted(set(ref.skeleton) - set(act.skeleton))
         return "different", [f"loop extents/guards {a} differ from the definition's {r}"]
     if act.facts == ref.facts:
-        return "same", [f"{len(act.facts)} effects equal to the reference definition modulo renaming and polynomial normal form"]
+        return "same", [f"{len(act.facts)} effects equal to the reference definition modulo renaming and polynomial normal form"] + (
+            [f"(additional domain guards that only reject invalid input: {tolerated})"] if tolerated else [])
     extra = sorted(map(str, act.facts - ref.facts))
     missing = sorted(map(str, ref.facts - act.facts))
     return "different", [f"kernel has: {e}" for e in extra[:4]] + [f"definition needs: {m}" for m in missing[:4]]
